@@ -67,12 +67,14 @@ def generate(ck):
         {"cls": "single", "table": {"kind": "synthetic", "family": "const-diffusivity", "prm": [0.3, 0.6, 0.2], "n": 200, "p_lo": 50.0, "p_hi": 9000.0, "grid": "uniform", "seed": 0}, "nx": 25, "p_i": 8000.0, "p_f": 2000.0, "r": 8, "t_end": 6.0, "levels": None, "ladder": True},
         {"cls": "single", "table": {"kind": "synthetic", "family": "zlin", "prm": [0.3, 0.6, 0.2], "n": 400, "p_lo": 50.0, "p_hi": 9000.0, "grid": "uniform", "seed": 0}, "nx": 25, "p_i": 8000.0, "p_f": 7900.0, "r": 16, "t_end": 4.0, "levels": None, "ladder": True},
     ]
+    descs.append(dict(descs[0], decoy=True, ratio=0.5))
+    descs.append(dict(descs[2], decoy=True, p_f=3000.0))
     for i in range(n):
         r = int(rng.choice([4, 8, 16]))
         t_end = float(rng.uniform(2, 12))
         nx = int(rng.choice([25, 40, 60, 100, 200] if i % 4 else [25]))
         if i % 6 == 0:
-            descs.append({"cls": "ideal", "nx": nx, "ratio": float(rng.choice([0.0, 0.3, 0.9, 0.995, float(rng.random())])), "r": r, "t_end": float(rng.uniform(8, 14)), "levels": None})
+            descs.append({"cls": "ideal", "nx": nx, "ratio": float(rng.choice([0.0, 0.3, 0.9, 0.995, float(rng.random())])), "r": r, "t_end": float(rng.uniform(8, 14)), "levels": None, "decoy": bool(i % 12 == 6)})
             continue
         t = tables.random_table_desc(rng, consistent_only=True, allow_built=(ck.tier == "thorough" or i % 10 == 1))
         tab = tables.from_desc(t)
@@ -83,7 +85,7 @@ def generate(ck):
             p_f = 0.5 * (p_i + lo)
         if i % 5 == 2:
             t = dict(t, rows=str(rng.choice(["descending", "shuffled"])), rows_seed=int(rng.integers(0, 10**6)))
-        d = {"cls": "single", "table": t, "nx": nx, "p_i": p_i, "p_f": p_f, "r": r, "t_end": t_end, "levels": None, "ladder": bool(i % 4 == 0), "reused": bool(i % 7 == 3)}
+        d = {"cls": "single", "table": t, "nx": nx, "p_i": p_i, "p_f": p_f, "r": r, "t_end": t_end, "levels": None, "ladder": bool(i % 4 == 0), "reused": bool(i % 7 == 3), "decoy": bool(i % 5 == 3)}
         kind = i % 3
         if kind == 1 and not d["ladder"]:
             k = 3
@@ -149,6 +151,23 @@ def gap_unexplained(out, fluid, tab, p_i, rf, rfd):
     return (rf - rfd) - G
 
 
+def _decoy(ck, desc, res, run_other):
+    """'Simulate every scenario, then compute the recoveries': another reservoir with the same numbers
+    of nodes and time stamps is simulated between this object's simulate and its recovery calls. The
+    recoveries judged afterwards are those of the field the object holds THEN; the field itself must
+    still be the one the contract saw."""
+    seen = sim.SIM_EVENTS[-1]["pp"] if sim.SIM_EVENTS else None
+    n_ev = len(sim.SIM_EVENTS)
+    run_other()
+    del sim.SIM_EVENTS[n_ev:]
+    live = np.asarray(res.pseudopressure, dtype=float)
+    if seen is not None and (live.shape != seen.shape or not np.array_equal(live, seen)):
+        ck.violation("field-held-by-the-object-is-its-own-solution", {"max_change": float(np.max(np.abs(live - seen))) if live.shape == seen.shape else None, "after": "a simulate on another object with the same nx and number of time stamps"}, desc)
+        if sim.SIM_EVENTS:
+            sim.SIM_EVENTS[-1]["pp"] = np.array(live, copy=True)
+    ck.count("recoveries_read_after_another_objects_simulate")
+
+
 def _one(ck, desc, nx):
     from bluebonnet.flow import FlowProperties, IdealReservoir, SinglePhaseReservoir
 
@@ -164,6 +183,8 @@ def _one(ck, desc, nx):
         res = IdealReservoir(nx, p_f, p_i, None)
         sim.SIM_EVENTS.clear()
         sim.simulate(res, t, None)
+        if desc.get("decoy"):
+            _decoy(ck, desc, res, lambda: sim.simulate(IdealReservoir(nx, 0.3 * p_f, p_i, None), 0.01 * t, None))
         rf = np.array(res.recovery_factor(), copy=True)
         return {"t": t, "rf": rf, "rfd": None, "p_f": p_f, "p_i": p_i}
     tab = tables.from_desc(desc["table"])
@@ -181,6 +202,11 @@ def _one(ck, desc, nx):
             sched[s:] = levels[k]
     sim.SIM_EVENTS.clear()
     sim.simulate(res, t, sched)
+    if desc.get("decoy"):
+        lo_tab = tables.pressure_range(tab)[0]
+        p_min = min(levels) if levels else p_f
+        p_other = max(lo_tab, p_min - 0.6 * (p_min - lo_tab)) if p_min - lo_tab > 0.2 * (p_i - p_min) else 0.5 * (p_min + p_i)
+        _decoy(ck, desc, res, lambda: sim.simulate(SinglePhaseReservoir(nx, p_other, p_i, fluid), 0.3 * t, None))
     with np.errstate(all="ignore"):
         rf = np.array(res.recovery_factor(), copy=True)
         rfd = np.array(res.recovery_factor(density=True), copy=True)
